@@ -160,6 +160,7 @@ def nigam_and_jennings_response(acc, dt, periods, xi):
 
 
 def absmax(a, axis=None):
+    a = np.asarray(a, dtype=float)  # negating the minimum wraps around for unsigned and narrow integer types
     amax = a.max(axis)
     amin = a.min(axis)
     return abs(np.where(-amin > amax, amin, amax))
